@@ -62,18 +62,6 @@ func tableConcat(L *LState) int {
 	sep := LString(L.OptString(2, ""))
 	i := L.OptInt(3, 1)
 	j := L.OptInt(4, tbl.Len())
-	if L.GetTop() == 3 {
-		if i > tbl.Len() || i < 1 {
-			L.Push(emptyLString)
-			return 1
-		}
-	}
-	if i > j {
-		L.Push(emptyLString)
-		return 1
-	}
-	i = intMax(intMin(i, tbl.Len()), 1)
-	j = intMin(intMin(j, tbl.Len()), tbl.Len())
 	if i > j {
 		L.Push(emptyLString)
 		return 1
